@@ -58,10 +58,13 @@ Topo(t) ==
       [] t = "tee4"    -> << <<0,0,0>>, <<1,0,0>>, <<2,0,0>>, <<1,0,1>> >>
       [] t = "tee4b"   -> << <<0,0,0>>, <<2,0,0>>, <<1,0,0>>, <<1,0,1>> >>   \* the livelock model of the pinned commit
       [] t = "row4"    -> << <<0,0,0>>, <<1,0,0>>, <<2,0,0>>, <<3,0,0>> >>
+      [] t = "row5"    -> << <<0,0,0>>, <<1,0,0>>, <<2,0,0>>, <<3,0,0>>, <<4,0,0>> >>
+      [] t = "row5a"   -> << <<0,0,0>>, <<2,0,0>>, <<1,0,0>>, <<3,0,0>>, <<4,0,0>> >>   \* the middle of the left half before its neighbour
+      [] t = "row5b"   -> << <<2,0,0>>, <<4,0,0>>, <<0,0,0>>, <<3,0,0>>, <<1,0,0>> >>   \* no block added next to the one before it
       [] t = "sq4"     -> << <<0,0,0>>, <<1,0,0>>, <<0,1,0>>, <<1,1,0>> >>
       [] t = "zig4"    -> << <<0,0,0>>, <<1,0,0>>, <<1,1,0>>, <<2,1,0>> >>
 
-VId(p) == p[1] + 5 * p[2] + 25 * p[3]      \* (coordinates 0..4: row4 reaches x = 4)
+VId(p) == p[1] + 6 * p[2] + 36 * p[3]      \* (coordinates 0..5: row5 reaches x = 5)
 CellVerts(cell, symIdx) ==
     [k \in 1..8 |-> LET c == XYZTab[SymTab[symIdx][k] + 1]
                     IN VId(<<cell[1] + c[1], cell[2] + c[2], cell[3] + c[3]>>)]
